@@ -36,7 +36,9 @@ type matchSpec struct {
 
 // leafPred is the world's own LeafMatcher: a predicate on (index, entry kind),
 // both read straight from the leaf bytes (RFC 6962 s3.4 offsets).
-type leafPred struct{ f func(idx int64, pre bool) bool }
+type leafPred struct {
+	f func(idx int64, pre bool) bool
+}
 
 func (m leafPred) Matches(l *ct.LeafEntry) bool {
 	b := l.LeafInput
@@ -141,17 +143,22 @@ func (w *World) Init(s *kernel.Sim) {
 	t := s.T
 	p := &w.prof
 	p.Batch = t.Range(1, 16)
+	if t.Chance(1, 2) {
+		p.Batch = t.Range(1, 4) // small batches: many ranges in flight
+	}
 	p.Par = t.Range(1, 5)
 	p.Continuous = t.Chance(1, 3)
-	switch t.Intn(4) {
+	switch t.Pick([]int{2, 2, 4, 3, 1}) {
 	case 0:
-		p.Size0 = int64(t.Range(0, 12))
+		p.Size0 = int64(t.Range(1, 12))
 	case 1:
 		p.Size0 = int64(t.Range(0, 40))
 	case 2:
-		p.Size0 = min64(200, int64(t.Range(0, 8*p.Batch)))
-	default:
+		p.Size0 = min64(200, int64(t.Range(0, 24*p.Batch)))
+	case 3:
 		p.Size0 = int64(t.Range(0, 200))
+	default:
+		p.Size0 = 0
 	}
 	if p.Continuous {
 		p.Grows = t.Range(0, 5)
@@ -163,7 +170,7 @@ func (w *World) Init(s *kernel.Sim) {
 		p.MaxSize = min64(200, p.Size0+int64(t.Range(1, 60)))
 	}
 	n := p.Size0
-	switch t.Intn(6) {
+	switch t.Pick([]int{4, 2, 1, 1, 2}) {
 	case 0:
 		p.Start = 0
 	case 1:
@@ -175,8 +182,8 @@ func (w *World) Init(s *kernel.Sim) {
 	default:
 		p.Start = max64(0, n-int64(t.Range(0, 6*p.Batch)))
 	}
-	switch t.Intn(6) {
-	case 0, 5:
+	switch t.Pick([]int{5, 2, 1, 2, 2}) {
+	case 0:
 		p.End = 0 // the whole tree at the STH
 	case 1:
 		p.End = p.Start + int64(t.Range(0, int(max64(0, n-p.Start))))
@@ -646,7 +653,11 @@ func (w *World) checkIndex(idx int64) bool {
 	case idx < 0 || idx >= w.size:
 		w.s.Violate("range", m+"|beyond-tree", "index %d delivered, the log has published %d entries", idx, w.size)
 	case idx < w.prof.Start:
-		w.s.Violate("range", fmt.Sprintf("%s|below-start|cont=%v", m, w.prof.Continuous), "index %d delivered, StartIndex is %d (EndIndex %d, STH sizes given: first %d, largest %d)", idx, w.prof.Start, w.prof.End, w.sthPrep, w.sthMax)
+		cause := "other"
+		if w.prof.Start > w.expectedEnd() {
+			cause = "start-beyond-end" // StartIndex lies beyond EndIndex / the tree size of the first STH
+		}
+		w.s.Violate("range", fmt.Sprintf("%s|below-start|cont=%v|%s", m, w.prof.Continuous, cause), "index %d delivered, StartIndex is %d (EndIndex %d, STH sizes given: first %d, largest %d)", idx, w.prof.Start, w.prof.End, w.sthPrep, w.sthMax)
 	case idx >= w.sthMax:
 		w.s.Violate("range", m+"|beyond-sth", "index %d delivered, the largest STH given has size %d", idx, w.sthMax)
 	case !w.prof.Continuous && idx >= w.expectedEnd():
@@ -850,14 +861,17 @@ func (w *World) judgeDone() {
 		for w.delivered[hi] > 0 {
 			hi++
 		}
+		beyond := int64(-1) // smallest delivered index beyond the gap (no map order in the report)
 		for idx := range w.delivered {
-			if idx >= hi {
-				s.Violate("gap", "fetcher|continuous-stop", "continuous run stopped: index %d was delivered but %d was not (StartIndex %d)", idx, hi, w.prof.Start)
-				break
+			if idx >= hi && (beyond < 0 || idx < beyond) {
+				beyond = idx
 			}
 		}
+		if beyond >= 0 {
+			s.Violate("gap", "fetcher|continuous-stop", "continuous run stopped: index %d was delivered but %d was not (StartIndex %d)", beyond, hi, w.prof.Start)
+		}
 	}
-	if w.nDelivered > 0 && !s.Violated() {
+	if len(w.served) > 0 && !s.Violated() { // entries were fetched and what became of them was judged
 		s.Probe("nontrivial")
 	}
 }
@@ -919,6 +933,21 @@ func (w *World) Finish(s *kernel.Sim) {
 		state = "after-stop"
 	case w.prof.Continuous:
 		state = "continuous-not-caught-up"
+		// an index that was never fetched although later ones were: the run skipped it and will never catch up
+		first, last := int64(-1), int64(-1)
+		for i := max64(w.prof.Start, 0); i < w.size; i++ {
+			if w.served[i] == 0 && first < 0 {
+				first = i
+			}
+			if w.served[i] > 0 {
+				last = i
+			}
+		}
+		if first >= 0 && last > first {
+			s.Violate("gap", w.modeName()+"|continuous-skipped-index", "continuous run: index %d was never fetched although index %d was; with an honest log since the start of the settle phase nothing has asked for it after %d steps (%v of fake time)",
+				first, last, s.Step(), s.Now())
+			return
+		}
 	}
 	s.Violate("liveness", w.modeName()+"|"+state, "with an honest log since the start of the settle phase the run has not returned after %d steps (%v of fake time): delivered %d, published %d, parked %d",
 		s.Step(), s.Now(), w.nDelivered, w.size, len(s.ParkedCalls()))
